@@ -1,6 +1,6 @@
 """debug helper: verify one contract serially.  usage: dbg.py <contracts module> <index> [prop]"""
 import sys, time
-sys.path[:0]=['/verif','/repo']
+import os; sys.path[:0]=['/verif', os.environ.get('VERIF_REPO','/repo')]
 import importlib
 from vlib.common import Report
 from pyvc.contract import Verifier
